@@ -2711,7 +2711,7 @@ def inv_bindings(eng, inv, frame, k_term):
     return b
 
 
-def havoc_locals(eng, names, frame, tagline):
+def havoc_locals(eng, names, frame, tagline, assigned=None):
     run = eng.run
     for n in sorted(names):
         if not frame.has(n):
@@ -2723,6 +2723,9 @@ def havoc_locals(eng, names, frame, tagline):
                 if fr is not None and not fr.frozen:
                     havoc_fresh(eng, fr)
                     continue
+            if assigned is not None and n not in assigned:
+                continue    # only possibly-mutated, not rebound: nothing to forget about the binding
+            if cur.sort == "val":
                 frame.vars[n] = tv_val(z3.Const(run.fresh_name(f"h_{n}"), S.Val))
             else:
                 sort = {"int": z3.IntSort(), "bool": z3.BoolSort(), "real": z3.RealSort(), "str": z3.StringSort()}[cur.sort]
@@ -2757,9 +2760,10 @@ def for_with_invariant(eng, s, frame, view, inv, k_ord):
     g0 = eng.eval_clause(c, inv, inv_bindings(eng, inv, frame, z3.IntVal(0))).truth()
     run.obligation("inv-init", g0, s, name=f"loop{k_ord}")
     choice = run.choose(2, [z3.BoolVal(True), z3.BoolVal(True)], f"loop{k_ord}")
-    mod = assigned_names(s.body) | (mutated_fresh(eng, s.body, frame))
+    asg = assigned_names(s.body)
+    mod = asg | (mutated_fresh(eng, s.body, frame))
     mod.discard("_")
-    havoc_locals(eng, mod, frame, s.lineno)
+    havoc_locals(eng, mod, frame, s.lineno, assigned=asg)
     for m in run.modifies:
         eng.havoc_path(m, run.mod_bound)
     if choice == 0:
@@ -2810,8 +2814,9 @@ def exec_while(eng, s, frame):
     g0 = eng.eval_clause(ctr, inv, inv_bindings(eng, inv, frame, z3.IntVal(0))).truth()
     run.obligation("inv-init", g0, s, name=f"loop{k_ord}")
     choice = run.choose(2, [z3.BoolVal(True), z3.BoolVal(True)], f"while{k_ord}")
-    mod = assigned_names(s.body) | mutated_fresh(eng, s.body, frame)
-    havoc_locals(eng, mod, frame, s.lineno)
+    asg = assigned_names(s.body)
+    mod = asg | mutated_fresh(eng, s.body, frame)
+    havoc_locals(eng, mod, frame, s.lineno, assigned=asg)
     for m in run.modifies:
         eng.havoc_path(m, run.mod_bound)
     kk = z3.Int(run.fresh_name(f"wit{k_ord}"))
